@@ -20,7 +20,7 @@ const (
 
 // HeldLock is one mutex known to be held at a program point.
 type HeldLock struct {
-	Key   string // canonical address of the mutex, e.g. "p:mc.mux"
+	Key   string // canonical address of the mutex, e.g. "p:#0.mux" (field mux of the receiver)
 	Type  string // struct type owning the mutex field, short name
 	Field string
 	Mode  int
@@ -39,13 +39,13 @@ func (s LockState) clone() LockState {
 
 // CanonAddr renders the address expression of a value in a form that is the
 // same for two syntactically different computations of the same location
-// inside one function activation: parameters by name, field selections by
+// inside one function activation: parameters by position, field selections by
 // field name, loads of cells that are stored once by the stored value.
 func CanonAddr(v ssa.Value) string {
 	for i := 0; i < 32; i++ {
 		switch x := v.(type) {
 		case *ssa.Parameter:
-			return "p:" + x.Name()
+			return paramKey(x)
 		case *ssa.FreeVar:
 			if b := Binding(x); b != nil {
 				v = b
@@ -274,7 +274,7 @@ func CheckGuards(funcs []*ssa.Function, specs []GuardSpec, isHelper func(*ssa.Fu
 					if held.Mode >= need {
 						continue
 					}
-					if isHelper != nil && isHelper(fn) && fn.Signature.Recv() != nil && len(fn.Params) > 0 && base == "p:"+fn.Params[0].Name() {
+					if isHelper != nil && isHelper(fn) && fn.Signature.Recv() != nil && len(fn.Params) > 0 && base == paramKey(fn.Params[0]) {
 						if requires[fn] == nil {
 							requires[fn] = map[string]int{}
 						}
@@ -330,7 +330,7 @@ func CheckHelperCalls(funcs []*ssa.Function, requires map[*ssa.Function]map[stri
 					if held.Mode >= need {
 						continue
 					}
-					if isHelper(fn) && fn.Signature.Recv() != nil && len(fn.Params) > 0 && base == "p:"+fn.Params[0].Name() {
+					if isHelper(fn) && fn.Signature.Recv() != nil && len(fn.Params) > 0 && base == paramKey(fn.Params[0]) {
 						if requires[fn] == nil {
 							requires[fn] = map[string]int{}
 						}
@@ -490,4 +490,18 @@ func releasedBefore(fn *ssa.Function) map[ssa.Instruction]map[string]bool {
 		}
 	}
 	return out
+}
+
+
+// paramKey names a parameter by its position (the receiver is #0), so that
+// keys do not depend on how the source happens to call it.
+func paramKey(p *ssa.Parameter) string {
+	if fn := p.Parent(); fn != nil {
+		for i, q := range fn.Params {
+			if q == p {
+				return fmt.Sprintf("p:#%d", i)
+			}
+		}
+	}
+	return "p:" + p.Name()
 }
